@@ -9,6 +9,7 @@ import (
 	"encoding/json"
 	"fmt"
 	"sort"
+	"strconv"
 	"strings"
 
 	"github.com/kubeshark/base/pkg/api"
@@ -27,6 +28,7 @@ func init() {
 	families["http.conv"] = &Family{Gen: genHttpConv, Run: runHttpConv}
 	families["http.split"] = &Family{Gen: genHttpSplit, Run: runHttpSplit}
 	families["http.entry"] = &Family{Gen: genHttpEntry, Run: runHttpEntry}
+	families["http.rawsplit"] = &Family{Gen: genHttpRawSplit, Run: runHttpRawSplit}
 }
 
 func harHeaders(v interface{}) sx.Sx {
@@ -128,6 +130,124 @@ func genHttpSplit(r *Rand, tier string, emit func(sx.Sx)) {
 
 func runHttpConvSplit(p sx.Sx, clens, slens []int) sx.Sx {
 	cb, sb := encHttpConv(p)
+	return httpObserveBytes(cb, sb, clens, slens)
+}
+
+// Family http.rawsplit (C08): streams that are NOT well-formed conversations - bad request / status
+// lines, bad header lines, garbage between well-formed messages, truncated messages - delivered whole
+// and in pieces (every two-piece split of short halves, one byte per read, random pieces); what the
+// dissector emits and how it ends must be the same.  payload: (#cbytes #sbytes (clens) (slens));
+// observation: ((whole obs) (split obs))
+func runHttpRawSplit(p sx.Sx) sx.Sx {
+	lens := func(x sx.Sx) []int {
+		out := []int{}
+		for _, l := range x.List {
+			out = append(out, int(l.Int()))
+		}
+		return out
+	}
+	cb, sb := p.List[0].Bytes(), p.List[1].Bytes()
+	whole := httpObserveBytes(cb, sb, nil, nil)
+	split := httpObserveBytes(cb, sb, lens(p.List[2]), lens(p.List[3]))
+	strip := func(o sx.Sx) sx.Sx { // without the echo of the input bytes
+		var out []sx.Sx
+		for _, x := range o.List {
+			if len(x.List) > 0 && (x.List[0].Atom == "cbytes" || x.List[0].Atom == "sbytes") {
+				continue
+			}
+			out = append(out, x)
+		}
+		return sx.L(out...)
+	}
+	return sx.L(sx.L(sx.A("whole"), strip(whole)), sx.L(sx.A("split"), strip(split)))
+}
+
+func genHttpRawSplit(r *Rand, tier string, emit func(sx.Sx)) {
+	goodReq := []string{"GET /after HTTP/1.1\r\nHost: example\r\n\r\n", "POST /p HTTP/1.1\r\nHost: e\r\nContent-Length: 5\r\n\r\nhello",
+		"GET /x?y=1 HTTP/1.0\r\n\r\n", "PUT /c HTTP/1.1\r\nHost: e\r\nTransfer-Encoding: chunked\r\n\r\n3\r\nabc\r\n0\r\n\r\n"}
+	badReq := []string{"THIS-IS-NOT-A-REQUEST-LINE\r\n", "GET\r\n", "GET / HTTP/9.9.9\r\n\r\n", "\r\n", "GET / HTTP/1.1\r\nBad Header Line\r\n\r\n",
+		"GET / HTTP/1.1\r\nHost: e\r\nContent-Length: x\r\n\r\n", "\x00\x01\x02\r\n", "GET / HTTP/1.1\r\n: novalue\r\n\r\n", "PRI * HTTP/2.0\r\n\r\nSM\r\n", "G"}
+	goodResp := []string{"HTTP/1.1 200 OK\r\nContent-Length: 2\r\n\r\nok", "HTTP/1.1 204 No Content\r\n\r\n", "HTTP/1.0 404 Not Found\r\nContent-Length: 0\r\n\r\n",
+		"HTTP/1.1 200 OK\r\nTransfer-Encoding: chunked\r\n\r\n2\r\nhi\r\n0\r\n\r\n"}
+	badResp := []string{"NOT-A-STATUS-LINE\r\n", "HTTP/1.1 abc OK\r\n\r\n", "HTTP/1.1\r\n", "\r\n", "HTTP/1.1 200 OK\r\nBad Header\r\n\r\n",
+		"HTTP/1.1 200 OK\r\nContent-Length: -1\r\n\r\n", "\xff\xfe\r\n", "H"}
+	unq := func(s string) []byte {
+		u, err := strconvUnquote(s)
+		if err != nil {
+			return []byte(s)
+		}
+		return []byte(u)
+	}
+	build := func(good, bad []string) []byte {
+		var b []byte
+		for k := 1 + r.Intn(4); k > 0; k-- {
+			if r.Chance(45) {
+				b = append(b, unq(bad[r.Intn(len(bad))])...)
+			} else {
+				b = append(b, unq(good[r.Intn(len(good))])...)
+			}
+		}
+		if r.Chance(10) && len(b) > 0 {
+			b = b[:r.Intn(len(b))]
+		}
+		return b
+	}
+	ones := func(n int) sx.Sx {
+		ls := make([]sx.Sx, n)
+		for i := range ls {
+			ls[i] = sx.N(1)
+		}
+		return sx.L(ls...)
+	}
+	rnd := func(n int) sx.Sx {
+		var ls []sx.Sx
+		for left := n; left > 0; {
+			k := 1 + r.Intn(30)
+			if r.Chance(30) {
+				k = 1
+			}
+			ls = append(ls, sx.N(k))
+			left -= k
+		}
+		return sx.L(ls...)
+	}
+	// each bad piece followed by a good exchange: every two-piece split, and byte by byte
+	for _, bq := range badReq {
+		cb := append(unq(bq), unq(goodReq[0])...)
+		sb := unq(goodResp[0])
+		for i := 1; i < len(cb); i++ {
+			emit(sx.L(sx.B(cb), sx.B(sb), sx.L(sx.N(i)), sx.L()))
+		}
+		emit(sx.L(sx.B(cb), sx.B(sb), ones(len(cb)), ones(len(sb))))
+	}
+	for _, br := range badResp {
+		cb := unq(goodReq[0])
+		sb := append(unq(br), unq(goodResp[0])...)
+		for i := 1; i < len(sb); i++ {
+			emit(sx.L(sx.B(cb), sx.B(sb), sx.L(), sx.L(sx.N(i))))
+		}
+		emit(sx.L(sx.B(cb), sx.B(sb), ones(len(cb)), ones(len(sb))))
+	}
+	count := 300
+	if tier == "thorough" {
+		count = 6000
+	}
+	for i := 0; i < count; i++ {
+		cb, sb := build(goodReq, badReq), build(goodResp, badResp)
+		switch r.Intn(3) {
+		case 0:
+			emit(sx.L(sx.B(cb), sx.B(sb), ones(len(cb)), ones(len(sb))))
+		case 1:
+			emit(sx.L(sx.B(cb), sx.B(sb), rnd(len(cb)), rnd(len(sb))))
+		default:
+			emit(sx.L(sx.B(cb), sx.B(sb), sx.L(sx.N(1+r.Intn(len(cb)+1))), sx.L(sx.N(1+r.Intn(len(sb)+1)))))
+		}
+	}
+}
+
+func strconvUnquote(s string) (string, error) { return strconv.Unquote("\"" + s + "\"") }
+
+func httpObserveBytes(cb, sb []byte, clens, slens []int) sx.Sx {
 	d := httpExt.NewDissector()
 	stats := &api.AppStats{}
 	out := make(chan *api.OutputChannelItem, 1<<12)
@@ -241,7 +361,52 @@ func runHttpEntry(p sx.Sx) sx.Sx {
 				}
 			}
 		}
-		obs = append(obs, sx.L(sx.A("e"), sx.S(method), sx.S(path), sx.L(q...), sx.N(int(status))))
+		// the name/value lists of the item (before Analyze) and the maps of the entry (after it)
+		itemList := func(payload interface{}, field string) sx.Sx {
+			out := []sx.Sx{sx.A("l")}
+			b, err := json.Marshal(payload)
+			if err != nil {
+				return sx.L(sx.A("l"), sx.A("marshal-error"))
+			}
+			var m map[string]interface{}
+			if json.Unmarshal(b, &m) != nil {
+				return sx.L(sx.A("l"), sx.A("unmarshal-error"))
+			}
+			det, _ := m["details"].(map[string]interface{})
+			l, _ := det[field].([]interface{})
+			for _, x := range l {
+				h, _ := x.(map[string]interface{})
+				n, _ := h["name"].(string)
+				v, _ := h["value"].(string)
+				out = append(out, sx.L(sx.S(n), sx.S(v)))
+			}
+			return sx.L(out...)
+		}
+		entryMap := func(side map[string]interface{}, field string) sx.Sx {
+			out := []sx.Sx{sx.A("m")}
+			mm, ok := side[field].(map[string]interface{})
+			if !ok {
+				return sx.L(sx.A("m"), sx.A("not-a-map"))
+			}
+			var keys []string
+			for k := range mm {
+				keys = append(keys, k)
+			}
+			sort.Slice(keys, func(i, j int) bool { return fmt.Sprintf("%x", keys[i]) < fmt.Sprintf("%x", keys[j]) })
+			for _, k := range keys {
+				if v, ok := mm[k].(string); ok {
+					out = append(out, sx.L(sx.S(k), sx.S(v)))
+				} else {
+					out = append(out, sx.L(sx.S(k), sx.A("?")))
+				}
+			}
+			return sx.L(out...)
+		}
+		obs = append(obs, sx.L(sx.A("e"), sx.S(method), sx.S(path), sx.L(q...), sx.N(int(status)),
+			sx.L(sx.A("qh"), itemList(it.Pair.Request.Payload, "headers"), entryMap(req, "headers")),
+			sx.L(sx.A("qc"), itemList(it.Pair.Request.Payload, "cookies"), entryMap(req, "cookies")),
+			sx.L(sx.A("rh"), itemList(it.Pair.Response.Payload, "headers"), entryMap(res.Entry.Response, "headers")),
+			sx.L(sx.A("rc"), itemList(it.Pair.Response.Payload, "cookies"), entryMap(res.Entry.Response, "cookies"))))
 	}
 	return sx.L(obs...)
 }
@@ -255,6 +420,65 @@ func genHttpEntry(r *Rand, tier string, emit func(sx.Sx)) {
 		req := sx.L(sx.A("req"), sx.S("GET"), sx.S(t), sx.N(1), host, sx.A("none"), sx.B(nil))
 		resp := sx.L(sx.A("resp"), sx.N(200), sx.S("OK"), sx.N(1), sx.L(), sx.A("cl"), sx.B([]byte("ok")))
 		emit(sx.L(sx.L(sx.A("ex"), req, resp)))
+	}
+	// cookies: repeated names, adjacent and not, on one Cookie line and over several; Set-Cookie lines
+	// with attributes; repeated header names that are not adjacent
+	cookieLines := [][]string{{"sid=abc; theme=dark; sid=xyz"}, {"a=1; a=2; b=3"}, {"sid=abc; theme=dark", "sid=xyz"}, {"one=1"},
+		{"x=1; y=2; z=3; y=4; x=5"}, {"k=v", "k=w", "j=u", "k=x"}}
+	setCookies := [][]string{{"sid=abc; Path=/; HttpOnly", "theme=dark", "sid=xyz; Path=/app"}, {"a=1", "a=2"}, {"only=1; Secure"}, {}}
+	mkCookieEx := func(cl, sc []string, extra [][2]string) sx.Sx {
+		hs := []sx.Sx{sx.L(sx.S("Host"), sx.S("host.example"))}
+		for _, e := range extra {
+			hs = append(hs, sx.L(sx.S(e[0]), sx.S(e[1])))
+		}
+		for _, c := range cl {
+			hs = append(hs, sx.L(sx.S("Cookie"), sx.S(c)))
+		}
+		var rh []sx.Sx
+		for _, c := range sc {
+			rh = append(rh, sx.L(sx.S("Set-Cookie"), sx.S(c)))
+		}
+		req := sx.L(sx.A("req"), sx.S("GET"), sx.S("/c"), sx.N(1), sx.L(hs...), sx.A("none"), sx.B(nil))
+		resp := sx.L(sx.A("resp"), sx.N(200), sx.S("OK"), sx.N(1), sx.L(rh...), sx.A("cl"), sx.B([]byte("ok")))
+		return sx.L(sx.A("ex"), req, resp)
+	}
+	for i, cl := range cookieLines {
+		emit(sx.L(mkCookieEx(cl, setCookies[i%len(setCookies)], nil)))
+	}
+	emit(sx.L(mkCookieEx(nil, nil, [][2]string{{"X-Tag", "a"}, {"Accept", "x/y"}, {"X-Tag", "b"}, {"X-Other", "c"}, {"X-Tag", "d"}})))
+	rounds := 60
+	if tier == "thorough" {
+		rounds = 1500
+	}
+	names := []string{"sid", "theme", "a", "b", "lang", "_ga", "X-1"}
+	for i := 0; i < rounds; i++ {
+		mk := func(withAttrs bool) []string {
+			var lines []string
+			for l := r.Intn(3); l >= 0; l-- {
+				var parts []string
+				for k := 1 + r.Intn(4); k > 0; k-- {
+					parts = append(parts, names[r.Intn(len(names))]+"="+fmt.Sprintf("v%d", r.Intn(50)))
+					if withAttrs {
+						break
+					}
+				}
+				line := strings.Join(parts, "; ")
+				if withAttrs && r.Chance(50) {
+					line += "; Path=/p" + fmt.Sprint(r.Intn(3))
+				}
+				lines = append(lines, line)
+			}
+			return lines
+		}
+		var extra [][2]string
+		for k := r.Intn(4); k > 0; k-- {
+			extra = append(extra, [2]string{[]string{"X-Tag", "Accept", "X-Other", "Via"}[r.Intn(4)], fmt.Sprintf("h%d", r.Intn(20))})
+		}
+		var exs []sx.Sx
+		for k := 1 + r.Intn(2); k > 0; k-- {
+			exs = append(exs, mkCookieEx(mk(false), mk(true), extra))
+		}
+		emit(sx.L(exs...))
 	}
 	n := 0
 	genHttpConv(r, tier, func(conv sx.Sx) {
